@@ -166,6 +166,21 @@ CLAIMED = {
         "binary, against the Lean model, the Lean specification and an independent Python oracle. Known finding: rows of the tf table without (or with a "
         "differently named) inline form.",
         "DESIGN.md section 6 (C14)", "Lean 4 proofs (numeral uniqueness, GF(2)-linearity of the BCH remainder, state invariants of ConvertBits, totality by composition) + four-voice differential correspondence"),
+    "C15": claim(
+        "Every place where the C++ can die (assertion, arithmetic trap, out-of-bounds access, uncaught exception) is an explicit outcome of the Lean models; "
+        "theorems show these outcomes unreachable from the tools' entry points: no interpreter step ends abnormally (step_noabn, every opcode); for every state "
+        "reachable from setup_environment by step / rewind / exec no session step, no exec and no run-to-completion ends abnormally "
+        "(C15_session_never_abnormal, C15_run_never_abnormal, C15_noninteractive_never_abnormal), given a checker that does not assert on calls whose execution "
+        "data is initialised, which is proved of the transaction checker for every input index in range (C15_txChecker_noabn, C15_glue_checker_noabn) together "
+        "with the fact that configure_tx_txin / setup establish that initialisation (C15_configure_edReady, C15_spendSetup_good, C15_spend_init_never_asserts, "
+        "C15_spend_session_never_abnormal); the start-up sequence can only end abnormally through the value-expression evaluator, and there only through one "
+        "named site (C15_spendSetup_abnormal_only_pretend, C15_btcc_only_int, C15_valueData_only_int; that site was reproduced on the real code and repaired); "
+        "the P2SH hand-over guard is dead code without exec (C15_p2sh_saved_stack_nonempty). The models carry only the crash sites that reading found: memory "
+        "safety of the C++ itself is OBSERVED, not proved — every input stream of the other checks plus structure-aware mutations of them (truncation, "
+        "length-field corruption, oversized counts, out-of-range indices, nesting) runs on AddressSanitizer + UndefinedBehaviorSanitizer builds of the tree "
+        "(native harness and the three binaries under pipes and ptys, complete {step, rewind, exec} command trees on failing scripts), and a sample under "
+        "valgrind memcheck; any signal, sanitizer report or escaped exception is a violation with the input as replay.",
+        "DESIGN.md section 6 (C15)", "Lean 4 proofs of unreachability of the modelled crash sites (invariants over reachable session states, checker totality) + sanitizer-build execution of all streams and mutations"),
     "C16": claim(
         "Lean theorems: exec never changes position, script, history, flags or signature version (C16_position_untouched, by the frame lemma "
         "over every opcode), each applied operation is one StepScript and therefore the specification's instruction (C16_first_op via step_refines), "
